@@ -471,6 +471,31 @@ def d1_defaults(ctx):
     mm = ra.params[1] if len(ra.params) > 1 else 'mmap_mode'
     ifs = [i for i in ra.nodes(ast.If) if q.simple_compare(i.test) and unparse(q.simple_compare(i.test)[0]) == mm and
            q.simple_compare(i.test)[1] == 'is' and const_value(q.simple_compare(i.test)[2]) is None]
+    narrowed = None
+    if not ifs:
+        # `if mmap_mode is None and <dtype test>`: a further conjunct is harmless when it excludes no floating array (any floating kind, non-empty), and a
+        # recognised wrong form when it keeps double precision only: single / half precision files then keep their NaN / inf
+        for i in ra.nodes(ast.If):
+            if isinstance(i.test, ast.BoolOp) and isinstance(i.test.op, ast.And) and any(Pat().m('%s is None' % mm, v) for v in i.test.values):
+                extra = [v for v in i.test.values if not Pat().m('%s is None' % mm, v)]
+                kinds = []
+                for v in extra:
+                    if Pat().any(['np.issubdtype(E_a.dtype, np.floating)', 'np.issubdtype(E_a.dtype, np.inexact)', 'np.issubdtype(E_a.dtype, np.number)', "E_a.dtype.kind == 'f'",
+                                  "E_a.dtype.kind in 'fc'", "E_a.dtype.kind in ('f', 'c')", "E_a.dtype.kind in 'f'", 'E_a.size', 'E_a.size > 0', 'len(E_a)', 'len(E_a) > 0'], v):
+                        kinds.append('wide')
+                    elif Pat().any(['np.issubdtype(E_a.dtype, float)', 'np.issubdtype(E_a.dtype, np.float64)', 'np.issubdtype(E_a.dtype, np.double)', 'E_a.dtype == float',
+                                    'E_a.dtype == np.float64', "E_a.dtype == 'float64'", 'E_a.dtype is np.dtype(float)', 'E_a.dtype == np.dtype(float)', 'E_a.dtype == np.double',
+                                    'np.issubdtype(E_a.dtype, np.float32)', 'E_a.dtype == np.float32', 'E_a.dtype in (np.float64, float)', 'E_a.dtype in (float, np.float64)'], v):
+                        kinds.append('narrow')
+                        narrowed = v
+                    else:
+                        kinds.append(None)
+                if all(k_ == 'wide' for k_ in kinds):
+                    ifs = [i]
+                break
+    if narrowed is not None:
+        ctx.violated('C04.D1', ra, narrowed, 'NaN / inf are scrubbed only when `%s`: that test keeps one floating precision only (the builtin float is float64), so fully loaded '
+                     'arrays stored in another precision (float32 amplitudes, positions, whitening matrix) keep their NaN / inf' % unparse(narrowed))
     if not ifs:
         # early-exit form: `if mmap_mode is not None: return out` followed by the scrub on the rest of the body
         for k_, st_ in enumerate(ra.body()):
